@@ -49,7 +49,7 @@ Definition dErr (s : sx) : option err :=
   | I 1%N => Some EOF | I 2%N => Some UnexpectedEOF | I 3%N => Some MagicMismatch
   | I 4%N => Some HeaderChecksum | I 5%N => Some ValueChecksum | I 6%N => Some Decompress
   | I 7%N => Some NotFound | I 8%N => Some Rejected | I 9%N => Some Overflow
-  | I 10%N => Some OutOfFuel | I 11%N => Some Other
+  | I 10%N => Some OutOfFuel | I 11%N => Some Other | I 12%N => Some WrappedEOF
   | _ => None
   end.
 
